@@ -413,11 +413,11 @@ type mapUniverse struct {
 }
 
 func (u *mapUniverse) probes() (pk, pv []int) {
-	for k := 0; k <= u.nk+1; k++ {
+	for k := -1; k <= u.nk; k++ {
 		pk = append(pk, k)
 	}
 	if mapBidi(u.kind) {
-		for v := 0; v <= u.nv+1; v++ {
+		for v := -1; v <= u.nv; v++ {
 			pv = append(pv, v)
 		}
 	}
@@ -431,22 +431,23 @@ func (u *mapUniverse) New() Inst {
 func (u *mapUniverse) Inside(x Inst) bool { return true }
 func (u *mapUniverse) Calls(x Inst) []Call {
 	var cs []Call
-	for k := 1; k <= u.nk; k++ {
+	// keys 0..nk-1 and (bidi) values 0..nv-1: the Go zero value is a legitimate key and value
+	for k := 0; k < u.nk; k++ {
 		if mapBidi(u.kind) {
-			for v := 1; v <= u.nv; v++ {
+			for v := 0; v < u.nv; v++ {
 				cs = append(cs, Call{Op: "Put", I: k, V: v})
 			}
 		} else {
 			*u.ctr++
-			cs = append(cs, Call{Op: "Put", I: k, V: 100 + *u.ctr%800})
+			cs = append(cs, Call{Op: "Put", I: k, V: 100 + *u.ctr%800}, Call{Op: "Put", I: k, V: 0})
 		}
 		cs = append(cs, Call{Op: "Remove", I: k}, Call{Op: "Get", I: k})
 	}
-	cs = append(cs, Call{Op: "Remove", I: u.nk + 1}, Call{Op: "Remove", I: 0}, Call{Op: "Get", I: u.nk + 1},
+	cs = append(cs, Call{Op: "Remove", I: u.nk}, Call{Op: "Remove", I: -1}, Call{Op: "Get", I: u.nk}, Call{Op: "Get", I: -1},
 		Call{Op: "Get", I: math.MinInt}, Call{Op: "Remove", I: math.MaxInt}, Call{Op: "Clear"}, Call{Op: "Keys"},
 		Call{Op: "Values"}, Call{Op: "Size"}, Call{Op: "Empty"}, Call{Op: "String"})
 	if mapBidi(u.kind) {
-		for v := 0; v <= u.nv+1; v++ {
+		for v := -1; v <= u.nv; v++ {
 			cs = append(cs, Call{Op: "GetKey", V: v})
 		}
 	}
@@ -467,11 +468,11 @@ type mapRandom struct {
 
 func (u *mapRandom) New() Inst {
 	var pk, pv []int
-	for k := 0; k <= u.nk+1; k++ {
+	for k := -1; k <= u.nk; k++ {
 		pk = append(pk, k)
 	}
 	if mapBidi(u.kind) {
-		for v := 0; v <= u.nv+1; v++ {
+		for v := -1; v <= u.nv; v++ {
 			pv = append(pv, v)
 		}
 	}
@@ -485,23 +486,23 @@ func (u *mapRandom) Rand(x Inst, r *rand.Rand) Call {
 	u.ctr++
 	val := 100 + u.ctr%800
 	if mapBidi(u.kind) {
-		val = 1 + r.Intn(u.nv)
+		val = r.Intn(u.nv)
 	}
 	var k int
 	switch u.pattern {
 	case "asc":
-		k = 1 + (u.step-1)%u.nk
+		k = (u.step - 1) % u.nk
 	case "desc":
-		k = u.nk - (u.step-1)%u.nk
+		k = u.nk - 1 - (u.step-1)%u.nk
 	case "zigzag":
 		i := (u.step - 1) % u.nk
 		if i%2 == 0 {
-			k = 1 + i/2
+			k = i / 2
 		} else {
-			k = u.nk - i/2
+			k = u.nk - 1 - i/2
 		}
 	default:
-		k = 1 + r.Intn(u.nk)
+		k = r.Intn(u.nk)
 	}
 	p := r.Intn(20)
 	fill := 9
@@ -515,15 +516,15 @@ func (u *mapRandom) Rand(x Inst, r *rand.Rand) Call {
 	case p < fill:
 		return Call{Op: "Put", I: k, V: val}
 	case p < 15:
-		return Call{Op: "Remove", I: 1 + r.Intn(u.nk)}
+		return Call{Op: "Remove", I: r.Intn(u.nk+1) - 0}
 	case p < 17:
-		return Call{Op: "Get", I: r.Intn(u.nk + 2)}
+		return Call{Op: "Get", I: r.Intn(u.nk+2) - 1}
 	case p < 18:
 		if r.Intn(6) == 0 {
 			return Call{Op: "Clear"}
 		}
 		if mapBidi(u.kind) {
-			return Call{Op: "GetKey", V: r.Intn(u.nv + 2)}
+			return Call{Op: "GetKey", V: r.Intn(u.nv+2) - 1}
 		}
 		return Call{Op: "Keys"}
 	default:
